@@ -15,7 +15,6 @@ package main
 
 import (
 	"fmt"
-	"net/url"
 	"sort"
 	"strconv"
 	"strings"
@@ -103,7 +102,7 @@ func textOf(tok string) string {
 }
 
 // texts with characters that mean something in a URL (client suite: metric names, path segments)
-var oddTexts = map[string]string{"odd1": "we?ird", "odd2": "sp ace", "odd3": "per%41cent", "odd4": "ha#sh", "odd5": "pl+us", "odd6": "ünï"}
+var oddTexts = map[string]string{"odd1": "we?ird", "odd2": "sp ace", "odd3": "per%41cent", "odd4": "ha#sh", "odd5": "pl+us", "odd6": "ünï", "odd7": "%2F", "odd8": "a;b=c&d"}
 
 func safeLiteral(s string) bool {
 	if s == "" || len(s) > 40 {
@@ -199,17 +198,6 @@ func segAttrs(tok string) string {
 	}
 	if p, err := peer.Decode(txt); err == nil {
 		out += ":p" + strconv.Itoa(peerIdx(p))
-	}
-	// how the text arrives when it is put into a URL path without escaping (an oracle for the INPUT:
-	// net/url's reading of the raw text; used for the client's unescaped path components)
-	if u, err := url.Parse("http://h/pre/" + txt + "/post"); err == nil {
-		arr := strings.TrimPrefix(u.Path, "/pre/")
-		if i := strings.Index(arr, "/"); i >= 0 {
-			arr = arr[:i]
-		}
-		if arr != txt {
-			out += ":w" + tokOfText(arr)
-		}
 	}
 	return out
 }
